@@ -62,6 +62,16 @@ CHECKS = {
         text="Theorems (Props/C07.v, no axioms): for the spec, distance non-negative, 0 to itself, symmetric for symmetric costs, never more than delete-all plus insert-all, similarity in [0,1] and 1 for identical trees (any size); the three shipped cost models satisfy the hypotheses for every label; the model's similarity is in [0,1] for all inputs and its nil cases equal the spec; bounded: model = spec = brute-force minimum over all Tai mappings on all pairs of trees with <=4 nodes/2 labels and <=3 nodes/3 labels for the three cost models. Every run: exhaustive small pairs and random/mutated trees up to 40 (120 thorough) nodes, cost tables, self-zero/symmetry/upper-bound/similarity clauses on the implementation, cases at 499/500 nodes and above.",
         note="ComputeDistance = spec for all trees <= 500 nodes is NOT proved in general (bounded theorem + correspondence). Costs are exact integers (units of 2^-120): default model compared exactly, python/weighted within 1e-9. Minimum edit cost = minimum over edit mappings (python/weighted costs are not a metric). Trees > 500 nodes (computeDistanceOptimized) are not modelled; only similarity range/identity are checked there. Observation recorded in DESIGN: above 500 nodes the distance is usually 0.",
         design="5 C07"),
+    "C08": dict(
+        technique="Coq proof over a literal model of the clone pair pipeline around an abstract similarity function (Clone/Pairs.v: extraction filters, overlap, shouldCompare + Jaccard pre-filters, classifier gate, bands, significance, exhaustive/batched/LSH paths, sort+limit, service filter, Validate); operators/literals regenerated from the Go AST; CLI correspondence on generated projects x configurations x file orders with the model instantiated by the observed similarity table",
+        text="Theorems (Props/C08.v, closed): C08_justified for every detection path incl. truncation (sim >= reporting threshold and Type4, inside [min,max], type = unique band and enabled, both fragments >= min nodes/lines, no shared line in one file); C08_verbatim_partial (verbatim copy reported as (1,0,Type1) on every path under the explicit line-count hypothesis) with C08_verbatim_refuted (F19 witness); C08_order (report invariant under Permutation of fragments and pair orientation, no truncation). Each run: pyscn analyze --json on generated projects (verbatim+noise/renamed/edited x same file/other file/other dir) x Validate-accepted configs with thresholds on observed similarities +-2^-40 and min sizes at fragment sizes +-1 x file orders; decided by the property's own conditions; model = ExtractFragments / exhaustive loop / CLI pair set.",
+        note="Similarity (APTED, C07) is a Section variable: symmetry, equal trees => (1,0,gate) and [0,1] range are hypotheses tested on every fragment pair of every run. Verbatim/order clauses are stated without truncation by MaxClonePairs (unstable sort). Full verbatim statement is false on the current tree: F19 (line-count pre-filter), open known finding matched only when that pre-filter fires.",
+        design="5 C08"),
+    "C09": dict(
+        technique="Coq proof on the shared pipeline model (Clone/Pairs.v): LSH candidates as band-sharing index pairs with abstract MinHash/FNV, batch loop as pure index combinatorics, addPairWithLimit fold; in-package driver correspondence (DetectClonesWithLSH / batching / exhaustive on the same fragments) over an LSH x batch-size grid, plus CLI lsh_enabled true/false",
+        text="Theorems (Props/C09.v, closed): lsh_subset / lsh_detect_subset (every LSH pair is the same record as an exhaustive pair), lsh_at_least_one_band, lsh_keeps_identical / lsh_detect_keeps_identical (equal feature sets => reported, any bands/rows/hashes/threshold), batch_covers + batch_covers_once (every i<j visited exactly once, any batch size > 0), batch_count_eq, batch_eq_unbatched and detect_eq_exhaustive (same unordered pair set and count without truncation). Each run: fragment sets of 6-60 fragments x LSH grid (incl. rows > hashes, non-positive defaults, thresholds outside [0,1]) x batch sizes {1,2,3,7,50,100} x pair limits: LSH subset of exhaustive with equal similarity/type, identical pairs kept, batched = unbatched; model = implementation for detect/batched/LSH and FNV band keys.",
+        note="F23 (rows > hashes gave zero bands) repaired by a fix: commit (clamp of the band width in computeBandKeys); the translator reads the clamp from the source, so reverting it breaks lsh_at_least_one_band and the check finds the lost identical pair. MinHash hash functions are abstract (signatures taken from the implementation); map iteration order is modelled as a set; under truncation only 'never invents' and 'keeps the most similar' are checked.",
+        design="5 C09"),
     "C10": dict(
         technique="Coq proofs over executable models of the four grouping strategies (internal/analyzer/*_grouping.go) plus a computable contract checker proved equivalent to the contract and run on the implementation's output; constants regenerated from Go source; differential correspondence (vm_compute) against the tagged Go driver (op group) and the CLI JSON report",
         text="Theorems (Props/C10.v, no axioms): for every pair list, threshold > 0, k and map order the model's groups satisfy the selected mode's contract (>= 2 members, disjoint, connected inside the group through pairs >= t; connected = exactly the components of G_t with >= 2 members; complete = cliques; k-core = >= k neighbours inside the group; star = a medoid >= t with every other member); check_contract <-> contract; bounded: k-core groups = components of the k-core on all 4-fragment graphs and all map orders. Every run: real GroupClones on all weighted graphs on <= 4 fragments (5-point threshold lattice), sampled 5-fragment graphs, structured and random graphs to 40 fragments, decided by the proved checker, implementation compared with the model as sets of sets; clone.clone_groups[] of the CLI report checked per grouping_mode.",
